@@ -102,22 +102,30 @@ func (e editor) leaf(from *Selection, to *Selection, m meta.Leafable, new bool, 
 }
 
 func (e editor) clearOnDifferentChoiceCase(existing *Selection, want meta.Meta) error {
-	wantCase, valid := want.Parent().(*meta.ChoiceCase)
-	if !valid {
-		return nil
+	// a definition inside nested choices sits in one case of every enclosing
+	// choice, each of them may have to replace another case
+	for p := want.Parent(); p != nil; {
+		wantCase, valid := p.(*meta.ChoiceCase)
+		if !valid {
+			return nil
+		}
+		choice := wantCase.Parent().(*meta.Choice)
+		p = choice.Parent()
+		existingCase, err := existing.Node.Choose(existing, choice)
+		if err != nil {
+			// we're eating the error here because destination may not implement choose because
+			// it's a write-only implementation. clearing the old value is a courtesy anyway so
+			// proceed with edit as planned.
+			return nil
+		}
+		if existingCase == wantCase || existingCase == nil {
+			continue
+		}
+		if err := e.clearChoiceCase(existing, existingCase); err != nil {
+			return err
+		}
 	}
-	choice := wantCase.Parent().(*meta.Choice)
-	existingCase, err := existing.Node.Choose(existing, choice)
-	if err != nil {
-		// we're eating the error here because destination may not implement choose because
-		// it's a write-only implementation. clearing the old value is a courtesy anyway so
-		// proceed with edit as planned.
-		return nil
-	}
-	if existingCase == wantCase || existingCase == nil {
-		return nil
-	}
-	return e.clearChoiceCase(existing, existingCase)
+	return nil
 }
 
 func (e editor) clearChoiceCase(sel *Selection, c *meta.ChoiceCase) error {
